@@ -29,17 +29,19 @@ def rational(ctx, p, q):
     return np.float64(p) / q
 
 
-def ray_to_surface_point(ctx, R, k):
+def ray_to_surface_point(ctx, R, k, sl=None, tau=None):
     """a ray that meets the conic (R, k) at a rationally parametrised point P of its sag sheet (chord slope sl from the vertex, azimuth
     atan2(4, 3)), with a rationally parametrised unit direction, started tau before P: one root of the intersection quadratic is then
     rational, so its discriminant is a perfect square and the engine resolves it exactly"""
-    sl = ctx.real('sl')
-    ctx.assume(sl * sl > 1 + k)
+    if sl is None:
+        sl = ctx.real('sl')
+        ctx.assume(sl * sl > 1 + k)
     z = 2 * R / (1 + k + sl * sl)
     rho = sl * z
     P = (0.6 * rho, 0.8 * rho, z)
     d = tuple(rational(ctx, p_, 7) for p_ in (2, -3, 6))        # a skew unit vector with rational components
-    tau = ctx.real('tau', lo=0.01, hi=100.0)
+    if tau is None:
+        tau = ctx.real('tau', lo=0.01, hi=100.0)
     P0 = tuple(p - tau * c for p, c in zip(P, d))
     return P0, d, P, tau
 
